@@ -42,6 +42,10 @@ func (m *C11Mon) Wait(h *Hand, s *pokerface.GameState) {
 		}
 		return
 	}
+	if mw := maxWager(s); cw != mw {
+		h.Fail("C11/wager-to-match-not-largest-wager", "at=offer", fmt.Sprintf("wager to match is %d but the largest wager on the table is %d", cw, mw))
+		return
+	}
 	facing := cp.Wager < cw
 	sit := fmt.Sprintf("facing=%v,I-cw=%d,I-cw-prs=%d,I-mini=%d,cw0=%v", facing, sgn(I-cw), sgn(I-cw-prs), sgn(I-mini), cw == 0)
 	if h.Rep.Seen("situations", sit) {
@@ -123,8 +127,8 @@ func (m *C11Mon) After(h *Hand, pre *pokerface.GameState, op Op, err error, post
 			h.Fail("C11/call-amount", cause, fmt.Sprintf("seat %d called to %d, expected %d (wager to match %d, bb %d, holds %d)", i, b.Wager, target, cw0, h.C.BB, a.InitialStackSize))
 			return
 		}
-		if b.StackSize > 0 && b.Wager != cw1 {
-			h.Fail("C11/call-not-level", cause, fmt.Sprintf("seat %d has wager %d after calling, wager to match %d", i, b.Wager, cw1))
+		if mw := maxWager(post); b.StackSize > 0 && (b.Wager != cw1 || b.Wager != mw) {
+			h.Fail("C11/call-not-level", cause, fmt.Sprintf("seat %d has wager %d after calling, wager to match %d, largest wager on the table %d", i, b.Wager, cw1, mw))
 			return
 		}
 	case "allin":
